@@ -354,7 +354,9 @@ def write_back(tree, related_classes, sites, only=None, keep=(), methods=()):
                 if any(x is None or isinstance(x, ast.Starred) for x in parts):
                     return False
                 numeric[0] = False
-                return all(classify(x, locals_used, [True]) for x in parts)
+                ok_ = all(classify(x, locals_used, [True]) for x in parts)
+                computed[0] = False         # (methods kept in a table are references, not computed values)
+                return ok_
             if isinstance(e, ast.Lambda):
                 own = {a.arg for a in e.args.args + e.args.kwonlyargs}
                 if e.args.vararg or e.args.kwarg or e.args.defaults or e.args.kw_defaults:
